@@ -1,5 +1,5 @@
 /-
-M4: `liquer.cache.FileCache` and its obfuscating / encrypting subclasses, **as fixed by D6a + D14**:
+M4: `liquer.cache.FileCache` and its obfuscating / encrypting subclasses, **as fixed by D6a + D17**:
 
 * `store` = serialise, `remove(key)` (unpublish), write the data file, write the metadata file last —
   each file through a temporary file + `os.replace` (the step-by-step protocol is `CrashSteps.lean`;
